@@ -356,7 +356,7 @@ def plan(tier, seed):
         ids = [ids[i] for i in sorted(rng.choice(len(ids), size=min(220, len(ids)), replace=False).tolist())]
         nsh, budget = 16, 150
     else:
-        nsh, budget = 64, 1500
+        nsh, budget = 64, 400
     shards = [{"kind": "catalog", "ids": ids[i::nsh], "budget_s": budget} for i in range(nsh)]
     shards += [{"kind": "generated", "shard": i, "seed": seed, "examples": 8 if tier == "quick" else 60} for i in range(8 if tier == "quick" else 32)]
     shards += [{"kind": "large", "part": i, "parts": 6} for i in range(6)]
